@@ -122,3 +122,85 @@ def c17_total_always_one():
         srv.sessions.pop("FINDING-TOK", None)
     total = json.loads(resp.body)["data"]["total"]
     return total != 3, f"server answered total={total} for a 3-row result (the connector reports it as rowcount)"
+
+
+def _merge_session(t1, t2, ddl1="create table t1 (k int, v int, w int)"):
+    from vf.real import real_conn
+
+    fs, conn = real_conn()
+    cur = conn.cursor()
+    cur.execute(ddl1)
+    cur.execute("create table t2 (k int, v int, w int)")
+    for name, rows in (("t1", t1), ("t2", t2)):
+        for r in rows:
+            cur.execute(f"insert into {name} values ({', '.join('null' if x is None else str(x) for x in r)})")
+    return conn, cur
+
+
+def c12_duplicate_target_keys():
+    conn, cur = _merge_session([(1, 1, 0), (1, 2, 0), (3, 3, 0)], [(1, 10, 0), (4, 40, 0)])
+    cur.execute(
+        "merge into t1 using t2 on t1.k = t2.k when matched and t1.v = 1 then delete "
+        "when matched then update set v = t2.v when not matched then insert (k, v) values (t2.k, t2.v)"
+    )
+    got = sorted(cur.execute("select k, v from t1").fetchall())
+    want = [(1, 10), (3, 3), (4, 40)]
+    return got != want, f"target after MERGE {got}, Snowflake semantics give {want} (the row (1,2) must be updated, not deleted)"
+
+
+def c12_null_counts_when_no_candidates():
+    conn, cur = _merge_session([(1, 1, 0)], [(1, 5, 0)])
+    cur.execute("merge into t1 using t2 on t1.k = t2.k when matched and t2.v > 100 then delete")
+    row = cur.fetchall()
+    return row != [(0,)], f"status row {row!r} when no row qualifies (expected 0)"
+
+
+def c12_alias_or_qualified_source():
+    out = []
+    for sql in (
+        "merge into t1 using t2 as s on t1.k = s.k when matched then delete",
+        "merge into t1 as t using t2 on t.k = t2.k when matched then delete",
+        "merge into t1 using db1.s1.t2 on t1.k = t2.k when matched then delete",
+    ):
+        conn, cur = _merge_session([(1, 1, 0)], [(1, 5, 0)])
+        try:
+            cur.execute(sql)
+        except Exception as e:  # noqa: BLE001
+            out.append(f"{sql!r} -> {type(e).__name__}")
+    return bool(out), "; ".join(out) or "all accepted"
+
+
+def c12_set_expression_not_plain_column():
+    conn, cur = _merge_session([(1, 1, 0)], [(1, 5, 0)])
+    try:
+        cur.execute("merge into t1 using t2 on t1.k = t2.k when matched then update set v = t2.v + 1")
+    except Exception as e:  # noqa: BLE001
+        return True, f"UPDATE SET v = t2.v + 1 -> {type(e).__name__}: {str(e)[:80]}"
+    got = cur.execute("select v from t1").fetchall()
+    return got != [(6,)], f"v = {got}"
+
+
+def c12_helper_left_behind():
+    conn, cur = _merge_session([(1, 1, 0)], [(1, 5, 0)])
+    cur.execute("merge into t1 using t2 on t1.k = t2.k when matched then update set v = t2.v")
+    problems = []
+    try:
+        rows = cur.execute("select * from merge_candidates").fetchall()
+        problems.append(f"merge_candidates is selectable after MERGE ({len(rows)} rows)")
+    except Exception:  # noqa: BLE001
+        pass
+    rows = conn._duck_conn.execute("select * from db1.information_schema._fs_tables_ext").fetchall()
+    if rows:
+        problems.append(f"_fs_tables_ext gained {rows}")
+    return bool(problems), "; ".join(problems) or "no helper left"
+
+
+def c12_not_atomic():
+    conn, cur = _merge_session([(1, 1, 0), (2, 2, 0), (3, 3, 0)], [(1, 10, 0), (2, 20, 0)], ddl1="create table t1 (k int primary key, v int, w int)")
+    before = sorted(cur.execute("select k, v from t1").fetchall())
+    try:
+        cur.execute("merge into t1 using t2 on t1.k = t2.k when matched and t2.v = 10 then delete when matched then update set k = t2.w + 3")
+        return False, "merge unexpectedly succeeded"
+    except Exception as e:  # noqa: BLE001
+        after = sorted(cur.execute("select k, v from t1").fetchall())
+        return after != before, f"MERGE failed with {type(e).__name__} in a later step, target went {before} -> {after} (earlier DELETE step kept)"
